@@ -56,17 +56,9 @@ def fpIter : List Nat := [
   0x1791e2cef5cac11c3081ecdea3996c54  /- tree/mod.rs::operator_mut -/]
 
 def fpLexer : List Nat := [
-  0x999f815b671a456e7c00a81af5635337  /- token/mod.rs::char_to_partial_token -/,
-  0x9bf6ff653958e66a64d69840958201af  /- token/mod.rs::parse_escape_sequence -/,
-  0xfff68f25fdc1427e9304dde828a3df7b  /- token/mod.rs::parse_string_literal -/,
-  0x828c19689aaeb1b403f29cf549ec80e3  /- token/mod.rs::try_skip_comment -/,
-  0xa44a493a8be67749df964bb8390c1888  /- token/mod.rs::str_to_partial_tokens -/,
-  0x363f2730e92f7b2da5a8f1054afd4bad  /- token/mod.rs::partial_tokens_to_tokens -/,
-  0x08ad946b3210b61f885aa6583b323c03  /- token/mod.rs::tokenize -/,
-  0xde8b112f5b95f9083ac0ea31a1a82673  /- token/mod.rs::parse_dec_or_hex -/]
+]
 
 def fpNumeric : List Nat := [
-  0x9af9f29b0865afba015687c19310bbd1  /- value/numeric_types/default_numeric_types.rs::from_hex_str -/,
   0xe9052c5407c27fb28bf3688a9d2b386f  /- value/numeric_types/default_numeric_types.rs::random -/]
 
 def fpSerde : List Nat := [
